@@ -164,10 +164,7 @@ Definition sp_matching (X Y : sgraph) : res :=
   | Err e => Err e
   | Ok (RVals mine) =>
       if negb (forallb hashable mine) then Err EType else
-      match sn Y with
-      | [] => Err EAssert                 (* the other graph must exist *)
-      | l => matching_result mine (map (fun ps => (0, ps)) l)
-      end
+      matching_result mine (map (fun ps => (0, ps)) (sn Y))
   | Ok _ => Err EOther
   end.
 
@@ -247,12 +244,11 @@ Definition in_spec_scope (o : op) : bool :=
 
 (* where the two storage flavours are documented to differ: the one-graph-per-id store SKIPS an
    import / clone onto an id that holds nodes (warning only) and treats a graph without nodes as an
-   existing empty graph (clone source, find_matching_nodes partner) *)
+   existing empty graph (clone source) *)
 Definition in_disjoint_scope (sp : spec) (o : op) : bool :=
   match o with
   | OImport g _ => negb (sp_exists (sget sp g))
   | OClone g g2 => sp_exists (sget sp g) && negb (sp_exists (sget sp g2))
-  | OMatching _ g2 => sp_exists (sget sp g2)
   | _ => true
   end.
 
@@ -284,15 +280,6 @@ Definition refine_scope (o : op) : bool :=
   match o with
   | OImport _ _ | OImportDirect _ _ | OClone _ _ | OMerge _ _ _ _ => false
   | _ => in_spec_scope o
-  end.
-
-(* along a history: find_matching_nodes is only called with a partner that holds nodes (the one
-   documented-by-assert precondition on which the two flavours differ) *)
-Fixpoint partners_exist (sp : spec) (ops : list op) : bool :=
-  match ops with
-  | [] => true
-  | o :: r => (match o with OMatching _ g2 => sp_exists (sget sp g2) | _ => true end)
-              && partners_exist (fst (spec_step sp o)) r
   end.
 
 (* ---------- comparison used by the lock-step cases ---------- *)
